@@ -92,6 +92,30 @@ fn parse_range_bound(s: &str) -> Option<StreamId> {
     }
 }
 
+/// Parse what may follow the bounds of XRANGE/XREVRANGE: only COUNT <n> clauses
+/// (the last one wins); anything else is a syntax error
+fn parse_range_count(args: &[RespFrame]) -> std::result::Result<Option<usize>, RespFrame> {
+    let mut count = None;
+    let mut i = 0;
+    while i < args.len() {
+        let is_count = matches!(&args[i], RespFrame::BulkString(Some(bytes)) if bytes.eq_ignore_ascii_case(b"COUNT"));
+        if !is_count || i + 1 >= args.len() {
+            return Err(RespFrame::error("ERR syntax error"));
+        }
+        match &args[i + 1] {
+            RespFrame::BulkString(Some(bytes)) => {
+                match String::from_utf8_lossy(bytes).parse::<usize>() {
+                    Ok(n) => count = Some(n),
+                    Err(_) => return Err(RespFrame::error("ERR value is not an integer or out of range")),
+                }
+            }
+            _ => return Err(RespFrame::error("ERR invalid count format")),
+        }
+        i += 2;
+    }
+    Ok(count)
+}
+
 /// Handle XRANGE command - Get entries in a range
 pub fn handle_xrange(storage: &Arc<StorageEngine>, db: usize, parts: &[RespFrame]) -> Result<RespFrame> {
     if parts.len() < 4 {
@@ -126,29 +150,10 @@ pub fn handle_xrange(storage: &Arc<StorageEngine>, db: usize, parts: &[RespFrame
         None => return Ok(RespFrame::error("ERR Invalid stream ID specified as stream command argument")),
     };
     
-    // Parse optional COUNT - support multiple Redis client syntax patterns
-    let count = if parts.len() >= 6 {
-        // Check for "COUNT n" pattern
-        let count_keyword = match &parts[4] {
-            RespFrame::BulkString(Some(bytes)) => String::from_utf8_lossy(bytes).to_uppercase(),
-            _ => String::new(),
-        };
-        
-        if count_keyword == "COUNT" {
-            match &parts[5] {
-                RespFrame::BulkString(Some(bytes)) => {
-                    match String::from_utf8_lossy(bytes).parse::<usize>() {
-                        Ok(n) => Some(n),
-                        Err(_) => return Ok(RespFrame::error("ERR value is not an integer or out of range")),
-                    }
-                }
-                _ => return Ok(RespFrame::error("ERR invalid count format")),
-            }
-        } else {
-            None
-        }
-    } else {
-        None
+    // Parse optional COUNT
+    let count = match parse_range_count(&parts[4..]) {
+        Ok(count) => count,
+        Err(reply) => return Ok(reply),
     };
     
     // Get entries
@@ -212,24 +217,9 @@ pub fn handle_xrevrange(storage: &Arc<StorageEngine>, db: usize, parts: &[RespFr
     };
     
     // Parse optional COUNT
-    let count = if parts.len() >= 6 && parts[4].as_bulk_string_lossy().map(|s| s.to_uppercase()) == Some("COUNT".to_string()) {
-        match &parts[5] {
-            RespFrame::BulkString(Some(bytes)) => {
-                match String::from_utf8_lossy(bytes).parse::<usize>() {
-                    Ok(n) => Some(n),
-                    Err(_) => return Ok(RespFrame::error("ERR value is not an integer or out of range")),
-                }
-            }
-            _ => return Ok(RespFrame::error("ERR invalid count format")),
-        }
-    } else if parts.len() == 5 {
-        // Try to parse as a number
-        match parts[4].as_bulk_string_lossy() {
-            Some(s) if s.parse::<usize>().is_ok() => Some(s.parse::<usize>().unwrap()),
-            _ => None,
-        }
-    } else {
-        None
+    let count = match parse_range_count(&parts[4..]) {
+        Ok(count) => count,
+        Err(reply) => return Ok(reply),
     };
     
     // Get entries in reverse
